@@ -289,41 +289,46 @@ def run_store(case, ctx):
         else:  # one region tuple applies to every source
             regions, tshapes, regions_arg = [(slice(1, 1 + n1),)] * 2, [(n1 + 2,), (n2 + 2,)], "tuple"
         nontrivial = len(ch1) >= 2 or len(ch2) >= 2
-        orders = ["sync", "explore"]
+        # the lock kind cannot interact with the completion order on the (serial) controlled executor: full order exploration for True/False
+        orders = ["sync", "explore"] if lock in (True, False) else ["sync", "ends"]
         op = "store2"
 
     outcome = []
     n_exec = 0
-    for sc in orders:
-        if sc == "explore":
-            runs = []
 
-            def run(chooser):
-                return do_store(sources, xs, tshapes, regions, same_target, lock, mode, tkind, chooser, "ctl", regions_arg)
+    def run(chooser, sc="ctl"):
+        return do_store(sources, xs, tshapes, regions, same_target, lock, mode, tkind, chooser, sc, regions_arg)
 
-            it = itertools.chain(explore(run, bound=1, max_execs=200), [(None, run(Lifo()))])
-        else:
-            it = [(None, do_store(sources, xs, tshapes, regions, same_target, lock, mode, tkind, Lifo(), sc, regions_arg))]
-        try:
-            for _, problems in it:
-                n_exec += 1
-                for cls, detail in problems:
-                    outcome.append(cls)
-                    ctx.violation(f"{op}:{cls}", case, detail)
-        except Hang:
-            raise
-        except NotImplementedError as e:
-            if case[0] == "s1" and reg is not None and any((r[1][1] or 0) < 0 or (r[1][3] or 1) < 0 for r in reg):
-                ctx.count("rejected")  # fuse_slice refuses negative bounds / steps
-                outcome.append("rejected")
-                nontrivial = False
+    def executions():
+        for sc in orders:
+            if sc == "explore":  # every completion order with <= 1 deviation from FIFO, then newest-first
+                for _, problems in explore(run, bound=1, max_execs=200):
+                    yield problems
+                yield run(Lifo())
+            elif sc == "ends":  # FIFO and newest-first
+                yield run(Chooser())
+                yield run(Lifo())
             else:
-                ctx.violation(f"{op}:dask-raises:NotImplementedError", case, repr(e))
-            break
-        except Exception as e:  # noqa: BLE001
-            outcome.append(type(e).__name__)
-            ctx.violation(f"{op}:dask-raises:{type(e).__name__}", case, repr(e))
-            break
+                yield run(Lifo(), sc)
+
+    try:
+        for problems in executions():
+            n_exec += 1
+            for cls, detail in problems:
+                outcome.append(cls)
+                ctx.violation(f"{op}:{cls}", case, detail)
+    except Hang:
+        raise
+    except NotImplementedError as e:
+        if case[0] == "s1" and reg is not None and any((r[1][1] or 0) < 0 or (r[1][3] or 1) < 0 for r in reg):
+            ctx.count("rejected")  # fuse_slice refuses negative bounds / steps
+            outcome.append("rejected")
+            nontrivial = False
+        else:
+            ctx.violation(f"{op}:dask-raises:NotImplementedError", case, repr(e))
+    except Exception as e:  # noqa: BLE001
+        outcome.append(type(e).__name__)
+        ctx.violation(f"{op}:dask-raises:{type(e).__name__}", case, repr(e))
     ctx.count("executions", n_exec)
     ctx.case(case, nontrivial=nontrivial, outcome=(op, tuple(outcome), n_exec))
 
